@@ -20,7 +20,9 @@ RULE = (
     "AddValueToZero x value (7 values incl. negative and 0), each with target matrix / weights / both; every scaler gets the same share of "
     "the cases and its configurations are cycled; matrices are non-square (2..8 alternatives x 2..6 criteria, m != n), columns and weight vectors non-constant, drawn "
     "per column from the kinds positive / mixed sign / all negative / containing exact zeros / minimum exactly 0 / tiny positive (as the "
-    "scaler allows), dyadic eighths or arbitrary doubles, with ties; mixed objectives. Plus a malformed stream: criteria_range with "
+    "scaler allows), dyadic eighths or arbitrary doubles, with ties; mixed objectives; the criteria are all float64 (1/2 of the cases), ALL "
+    "int64 (whole numbers, the decision matrix built from an integer numpy array, 1/3) or mixed int64 / float64 through mkdm(dtypes=) "
+    "(1/6). Plus a malformed stream: criteria_range with "
     "lo >= hi (refusal). Three legs: implementation vs an independent Fraction / 60-digit Decimal evaluation of the normal form and the "
     "cell formula (property oracle), and implementation vs the Lean model (exact Rat; Lean Float for Vector/Standard). "
     "Non-trivial: every generated case (>= 2 alternatives and >= 2 criteria, non-constant columns); distinct by case hash."
@@ -62,6 +64,8 @@ def configs():
 
 def _num(rng, family, sign):
     """one value: sign = +1 / -1"""
+    if family == "int":  # whole numbers: the cells of an integer-typed criterion
+        return float(sign * rng.randint(1, 40))
     if family == "dyadic":
         return sign * rng.randint(1, 40) / 8
     return sign * math.ldexp(rng.uniform(0.5, 1.0), rng.randint(-6, 9))
@@ -130,15 +134,16 @@ def guards_ok(name, x):
     return True
 
 
-def kinds_for(name):
-    if name == "SumScaler":
-        return ["pos", "pos", "mixed", "neg", "zero", "minzero", "tiny"]
-    return KINDS_ANY
+def kinds_for(name, family=None):
+    kinds = ["pos", "pos", "mixed", "neg", "zero", "minzero", "tiny"] if name == "SumScaler" else KINDS_ANY
+    if family == "int":  # a whole-number column cannot hold the tiny value
+        kinds = [k for k in kinds if k != "tiny"]
+    return kinds
 
 
 def draw(rng, name, k, family):
     for _ in range(200):
-        x = vec(rng, k, family, rng.choice(kinds_for(name)))
+        x = vec(rng, k, family, rng.choice(kinds_for(name, family)))
         if guards_ok(name, x):
             return x
     return vec(rng, k, family, "pos", ties=0.0)
@@ -150,7 +155,17 @@ def make_case(rng, cfg, malformed=False):
     m = rng.randint(2, 8)
     n = rng.choice([x for x in range(2, 7) if x != m])
     family = rng.choice(["dyadic", "dyadic", "float"])
-    cols = [draw(rng, name, m, family) for _ in range(n)]
+    # dtype of each criterion: all float64 / ALL int64 (the matrix is built from an integer numpy array) / mixed int64-float64
+    mode = rng.choice(["float", "float", "float", "int", "int", "mixed"])
+    if mode == "int":
+        dtypes = ["int"] * n
+    elif mode == "mixed":
+        dtypes = [rng.choice(["int", "float"]) for _ in range(n)]
+        i, k = rng.sample(range(n), 2)
+        dtypes[i], dtypes[k] = "int", "float"
+    else:
+        dtypes = ["float"] * n
+    cols = [draw(rng, name, m, "int" if dtypes[j] == "int" else family) for j in range(n)]
     matrix = [[cols[j][i] for j in range(n)] for i in range(m)]
     if target in ("weights", "both"):
         weights = draw(rng, name, n, family)
@@ -168,7 +183,8 @@ def make_case(rng, cfg, malformed=False):
     if name == "AddValueToZero" and params["value"] is None:
         params["value"] = math.ldexp(rng.uniform(0.5, 1.0), rng.randint(-8, 4))
     dm = {"matrix": matrix, "objectives": G.objectives(rng, n, "mixed"), "weights": weights,
-          "alternatives": G.labels(rng, G.LABEL_POOL_ALT, m), "criteria": G.labels(rng, G.LABEL_POOL_CRIT, n), "family": family}
+          "alternatives": G.labels(rng, G.LABEL_POOL_ALT, m), "criteria": G.labels(rng, G.LABEL_POOL_CRIT, n), "family": family,
+          "dtypes": dtypes}
     return {"name": name, "target": target, "params": params, "dm": dm, "malformed": bool(malformed)}
 
 
@@ -216,9 +232,31 @@ def build(name, target, params):
     raise ValueError(name)
 
 
+def mkdm(d):
+    """the decision matrix of a case with the dtype of every criterion as the case states it ("dtypes": "int" / "float" per
+    criterion; absent = all float64).  All int: skcriteria.mkdm gets an integer numpy array; mixed: per-criterion dtypes=."""
+    import skcriteria as skc
+
+    dt = d.get("dtypes")
+    if not dt or all(t == "float" for t in dt):
+        return G.mkdm(d)
+    if any(t == "int" and not float(r[j]).is_integer() for r in d["matrix"] for j, t in enumerate(dt)):
+        raise AssertionError("an integer-typed criterion holds a value that is not a whole number")
+    kw = dict(weights=np.array(d["weights"], dtype=float), alternatives=list(d["alternatives"]), criteria=list(d["criteria"]))
+    if all(t == "int" for t in dt):
+        dm = skc.mkdm(np.array(d["matrix"], dtype=float).astype(np.int64), list(d["objectives"]), **kw)
+    else:
+        dm = skc.mkdm(np.array(d["matrix"], dtype=float), list(d["objectives"]),
+                      dtypes=[np.int64 if t == "int" else np.float64 for t in dt], **kw)
+    got = ["int" if np.issubdtype(x, np.integer) else "float" for x in dm.dtypes.to_numpy()]
+    if got != list(dt):
+        raise AssertionError(f"criteria dtypes {got}, wanted {dt}")
+    return dm
+
+
 def observe(case):
     with M.quiet():
-        dm = G.mkdm(case["dm"])
+        dm = mkdm(case["dm"])
         try:
             T = build(case["name"], case["target"], case["params"])
             r = T.transform(dm)
@@ -440,6 +478,8 @@ def nontrivial(case, obs):
 def tags(case, obs):
     t = ["scaler:" + case["name"], "target:" + case["target"], "family:" + case["dm"]["family"],
          "shape:" + ("tall" if len(case["dm"]["matrix"]) > len(case["dm"]["objectives"]) else "wide")]
+    dt = case["dm"].get("dtypes") or ["float"]
+    t.append("dtypes:" + ("int" if all(x == "int" for x in dt) else "float" if all(x == "float" for x in dt) else "mixed"))
     if case["malformed"]:
         t.append("malformed:" + ("refused" if "err" in obs else "accepted"))
     A = case["dm"]["matrix"]
